@@ -40,7 +40,7 @@ Lemma IEEE1905_len_only v v' : wf v -> wf v' -> bytes_ok (arr v) -> bytes_ok (ar
   IEEE1905_IsValid v = Ok true -> IEEE1905_IsValid v' = Ok true -> view v = view v' -> getters_len_only [] IEEE1905_getters IEEE1905_specs v v'.
 Proof. intros. eapply len_only_of_spec; eauto using IEEE1905_spec. Qed.
 Lemma IP4_len_only v v' : wf v -> wf v' -> bytes_ok (arr v) -> bytes_ok (arr v') ->
-  IP4_IsValid v = Ok true -> IP4_IsValid v' = Ok true -> view v = view v' -> getters_len_only IP4_findings_C02 IP4_getters IP4_specs v v'.
+  IP4_IsValid v = Ok true -> IP4_IsValid v' = Ok true -> view v = view v' -> getters_len_only [] IP4_getters IP4_specs v v'.
 Proof. intros. eapply len_only_of_spec; eauto using IP4_spec. Qed.
 Lemma IP6_len_only v v' : wf v -> wf v' -> bytes_ok (arr v) -> bytes_ok (arr v') ->
   IP6_IsValid v = Ok true -> IP6_IsValid v' = Ok true -> view v = view v' -> getters_len_only [] IP6_getters IP6_specs v v'.
@@ -52,7 +52,7 @@ Lemma SNAP_len_only v v' : wf v -> wf v' -> bytes_ok (arr v) -> bytes_ok (arr v'
   SNAP_IsValid v = Ok true -> SNAP_IsValid v' = Ok true -> view v = view v' -> getters_len_only [] SNAP_getters SNAP_specs v v'.
 Proof. intros. eapply len_only_of_spec; eauto using SNAP_spec. Qed.
 Lemma TCP_len_only v v' : wf v -> wf v' -> bytes_ok (arr v) -> bytes_ok (arr v') ->
-  TCP_IsValid v = Ok true -> TCP_IsValid v' = Ok true -> view v = view v' -> getters_len_only TCP_findings_C02 TCP_getters TCP_specs v v'.
+  TCP_IsValid v = Ok true -> TCP_IsValid v' = Ok true -> view v = view v' -> getters_len_only [] TCP_getters TCP_specs v v'.
 Proof. intros. eapply len_only_of_spec; eauto using TCP_spec. Qed.
 Lemma UDP_len_only v v' : wf v -> wf v' -> bytes_ok (arr v) -> bytes_ok (arr v') ->
   UDP_IsValid v = Ok true -> UDP_IsValid v' = Ok true -> view v = view v' -> getters_len_only [] UDP_getters UDP_specs v v'.
